@@ -39,7 +39,7 @@ ASSUMPTIONS = [
     'Constants are the protocol defaults served by the node (hard_gas_limit_per_operation 1040000, hard_storage_limit_per_operation 60000).',
     'Fault injection adds little here (stated in DESIGN.md): most runs are fault-free; transient bursts and latency are sampled in a minority.',
 ]
-EXPECTED_PROBES = ['batch_ge_20', 'custom_gas_reserve', 'batch_ge_8', 'tz4_judged', 'fee_varint_3_bytes', 'gas_near_hard_limit', 'large_payload', 'reveal_in_batch', 'internal_results']
+EXPECTED_PROBES = ['address_only_client', 'batch_ge_20', 'custom_gas_reserve', 'batch_ge_8', 'tz4_judged', 'fee_varint_3_bytes', 'gas_near_hard_limit', 'large_payload', 'reveal_in_batch', 'internal_results']
 
 KINDS = ['transaction', 'transaction_kt', 'contract_call', 'reveal', 'delegation', 'origination', 'register_global_constant', 'transfer_ticket', 'smart_rollup_add_messages',
          'smart_rollup_execute_outbox_message']
@@ -85,6 +85,7 @@ def gen(seed, tier):
         'latency_ms': 0,
         'chain_name': rng.choice(['TEZOS_MAINNET', 'SANDBOXED_TEZOS']),
         'prebake': 1,
+        'watch_only': rng.random() < 0.15,
     }
     enabled = [k for k in KINDS if rng.random() < 0.6] or ['transaction']
     ngroups = rng.choice([1, 1, 2, 3]) if key != 'tz4' else 1
@@ -129,7 +130,10 @@ def gen(seed, tier):
             plan.append(p)
         g = f'g{gi}'
         path = rng.choice(['autofill', 'autofill', 'send', 'fill'])
-        steps.append({'op': 'new', 'g': g, 'contents': specs, 'via': rng.choice(['chain', 'bulk']), 'sim_plan': plan})
+        via = rng.choice(['chain', 'bulk'])
+        if len(specs) == 1 and specs[0]['kind'] == 'contract_call':
+            via = rng.choice(['chain', 'bulk', 'call', 'call'])
+        steps.append({'op': 'new', 'g': g, 'contents': specs, 'via': via, 'sim_plan': plan})
         kw = {}
         if path in ('send', 'autofill') and rng.random() < 0.35:
             # limits from simulation plus a caller-chosen safety reserve (the fee must follow the limit actually declared)
@@ -175,6 +179,8 @@ def oracle(world, info):
         world.bump(world.probes, 'batch_ge_8')
     if n >= 20:
         world.bump(world.probes, 'batch_ge_20')
+    if world.cfg.get('watch_only'):
+        world.bump(world.probes, 'address_only_client')
     if (g.get('fill_kw') or {}).get('gas_reserve') is not None:
         world.bump(world.probes, 'custom_gas_reserve')
     if world.key_kind == 'tz4':
@@ -193,7 +199,7 @@ def oracle(world, info):
         return None
     nb = '1' if n == 1 else ('2-3' if n <= 3 else ('4-16' if n <= 16 else '17+'))
     reserve = 'default' if (g.get('fill_kw') or {}).get('gas_reserve') is None else 'custom'
-    sig = f'C24/fee-too-low:path={path}:key={world.key_kind}:batch={nb}:gas_reserve={reserve}'
+    sig = f'C24/fee-too-low:path={path}:key={world.key_kind}{"(address-only)" if world.cfg.get("watch_only") else ""}:batch={nb}:gas_reserve={reserve}'
     world.violations.append({
         'kind': 'fee', 'sig': sig,
         'detail': {'step_index': info['step_index'], 'group': st.get('g'), 'fee': fee, 'required': need_mutez, 'short_by': need_mutez - fee, 'bytes': size,
@@ -252,7 +258,7 @@ def simplify(scn):
                 c['steps'][i]['via'] = 'chain'
                 yield c
     cfg = scn['cfg']
-    for k, v in {'counter0': 10, 'chain_name': 'TEZOS_MAINNET', 'pending_key': 'validated'}.items():
+    for k, v in {'counter0': 10, 'chain_name': 'TEZOS_MAINNET', 'pending_key': 'validated', 'watch_only': False}.items():
         if cfg.get(k) != v:
             c = cp()
             c['cfg'][k] = v
